@@ -132,5 +132,7 @@ package main
 //@ requires autoname != nil && dedup != nil && prefix != nil && pluginprefix != nil
 //@ requires [fresh-process] !prefixesFrozen && !renamedUnsaved
 //@ ensures [user-files-intact] (!old(*autoname) && !old(*dedup)) ==> forall q string :: !isDerivedFile(q) ==> ((q in fs) <==> (q in old(fs))) && fs[q] == old(fs)[q]
+// C12: the prefix a plugin gets is the -pluginprefix override as given, otherwise its default prefix with "derive" replaced by -prefix
+//@ assert-at-call derive.Plugin.SetPrefix: [prefix-as-configured] (derive.Plugin.Name(p) in overridePrefixes ==> $arg0 == overridePrefixes[derive.Plugin.Name(p)]) && (!(derive.Plugin.Name(p) in overridePrefixes) ==> $arg0 == strings.Replace(derive.Plugin.GetPrefix(p), "derive", *prefix, 1))
 //@ loop 1: invariant !prefixesFrozen && overridePrefixes != nil
 //@ loop 2: invariant !prefixesFrozen && overridePrefixes != nil && nonNilPlugins(plugins)
